@@ -7,8 +7,6 @@ import Ufw.Model.Crc
 namespace Ufw.Tie.CrcLoops
 open Ufw.Tie.CPre
 
-theorem sx0 : (sx 64 (0#32)).toNat = 0 := by decide
-
 theorem loop1_spec (mem : List (BitVec 8)) :
     ∀ (fuel : Nat) (crc : BitVec 16) (buffer : Nat) (n : BitVec 64) (src : Nat),
       src + n.toNat = mem.length → n.toNat < fuel →
